@@ -164,8 +164,8 @@ def gen_place(r: random.Random, kn: dict, mode: str) -> dict:
         "att_hooks": r.choice(pl) if r.random() < kn.get("p_att_hooks", 0.3) else "none",
     }
     if mode == "async":
-        place["bs_async"] = r.random() < 0.5
-        place["sleeper_kind"] = r.choice(["async", "async", "sync"])
+        place["bs_async"] = r.choice([False, False, True, True, "aw"])
+        place["sleeper_kind"] = r.choice(["async", "async", "sync", "aw"])
     return place
 
 
